@@ -90,6 +90,18 @@ def apply_op(s, op, v):
     if op == "quote_unclosed":
         return [s.replace("'x'", "'x", 1) if "'x'" in s else s + " WHERE b = 'x", s.replace("FROM t", "FROM `t", 1), s + ' WHERE b = "x',
                 s.replace(" f ", " `f ", 1) if " f " in s else s + " ORDER BY `f", (s[:s.upper().index("FROM") + 5] if "FROM" in s.upper() else s + " FROM ") + "`"][v % 5]
+    if op == "quote_escape":
+        # escape characters and doubled quotes inside each kind of quoting: the quote check in
+        # front of the parser and the parser's tokenizer must agree on where a quoted text ends
+        bs = "\\"
+        tail = s.split("FROM t", 1)[1] if "FROM t" in s else ""
+        head = s.split("FROM t", 1)[0] if "FROM t" in s else s + " "
+        return [head + "FROM `t" + bs + "`" + tail, head + "FROM `t" + bs + "``" + tail, head + "FROM `t" + bs + bs + "`" + tail, head + "FROM `t``" + tail,
+                head + "FROM `t``u`" + tail, head + "FROM " + bs + "`t`" + tail, head + "FROM `" + bs + "`",
+                s.replace("'x'", "'x" + bs + "'", 1) if "'x'" in s else s + " WHERE b = 'x" + bs + "'",
+                s.replace("'x'", "'x" + bs + bs + "'", 1) if "'x'" in s else s + " WHERE b = 'x" + bs + bs + "'",
+                s.replace("'x'", "'x''", 1) if "'x'" in s else s + " WHERE b = 'x''", s + ' WHERE b = "x' + bs + '"', s + ' WHERE b = "x""',
+                s + " WHERE b = 'x" + bs + "' AND a = `y" + bs + "`", s + " WHERE `b" + bs + "` = 'x'", s + " ORDER BY `f" + bs + "`"][v % 15]
     if op == "huge_number":
         return pick([s + " LIMIT 99999999999999999999999", s.replace("f > 2", "f > 1e999"), sel_add(s, "f * 1e308 * 1e308"), s.replace("0, 10", "-1e400, 1e400"),
                      sel_add(s, "BOUNDED(f, 9223372036854775808, 9223372036854775809)")])
@@ -174,13 +186,17 @@ def raw_payload(cls, v, rng):
 
 def render_inputs(abstract, rng, variants):
     steps = []
+    cnt = {}
     for a in abstract:
         if a["t"] == "sql":
             if a["kind"] == "select":
                 for v in range(variants):
                     s = BASE[a["base"]]
                     for i, op in enumerate(a["ops"]):
-                        s = apply_op(s, op, v + 3 * i)
+                        # every use of an operator takes its next variant, so that all the variants of
+                        # an operator are used whatever the number of renderings per input
+                        cnt[op] = cnt.get(op, rng.randrange(60)) + 1
+                        s = apply_op(s, op, cnt[op])
                     if v % 3 == 1:
                         s = s.lower() if v % 2 else s.replace("SELECT", "select").replace(" FROM ", "\nfrom ")
                     steps.append({"op": "sql", "sql": s, "abs": a})
